@@ -12,7 +12,7 @@ LEVEL = "fault_enumeration"
 RULE = ("two case families. (a) one synthetic run (event_model.compose_*) fed to RunNormalizer: legacy Resource/Datum "
         "(spec in the mimetype table or not; resource_kwargs with 'path' or 'dataset'; datum_kwargs with or without "
         "'frame'), datum before or after the event that references it, datum_page / event_page packing, reserved data keys "
-        "'time'/'seq_num', or current StreamResource/StreamDatum; 1-5 events; oracle: a deep snapshot of every input "
+        "'time'/'seq_num', or current StreamResource/StreamDatum; 1-5 events; in 3 of 10 runs the stream is re-described in mid-run (second descriptor of the same name, numbering and the legacy frame counter continuing); oracle: a deep snapshot of every input "
         "document taken before the call equals the document after the WHOLE run; every emitted document passes the "
         "event-model schema; every internal value of every event is present in the emitted events; every datum referenced "
         "by an event yields exactly one stream_datum whose indices/seq_nums match that event. (b) _ConditionalBackup with a "
@@ -20,7 +20,7 @@ RULE = ("two case families. (a) one synthetic run (event_model.compose_*) fed to
         "the run exactly once, in order; distinct = (stream class, datum/event order, packing) / (run length, failure point)")
 ASSUMPTIONS = ["events reference one frame each", "a backup callback that itself raises is outside the statement"]
 REQUIRED_COUNTERS = {"runs_normalized": 200, "inputs_snapshotted": 2000, "emitted_validated": 1500, "datums_converted": 300,
-                     "backup_failure_points": 300, "datum_after_event_runs": 40}
+                     "backup_failure_points": 300, "datum_after_event_runs": 40, "redescribed_legacy_frame_runs": 10}
 MANIFEST = {
     "technique": "input-immutability snapshot oracle + schema oracle + datum->stream_datum matching on the real RunNormalizer; "
                  "exhaustive failure-point enumeration on the real _ConditionalBackup",
@@ -59,6 +59,15 @@ def build_run(rng):
                                                          "data_keys": {"c": {"dtype": "number", "shape": [], "source": "cfg"}}}})
     docs.append(("descriptor", desc.descriptor_doc))
     n = rng.randint(1, 5)
+    # the stream may be re-described in mid-run (second descriptor, same name: numbering and, for legacy data, the frame
+    # counter of the open Resource simply continue)
+    redesc_at = rng.randint(1, n - 1) if (n >= 2 and rng.random() < 0.3) else None
+    desc2 = None
+    if redesc_at is not None:
+        packing = "single"
+        desc2 = run.compose_descriptor(name="primary", data_keys=copy.deepcopy(dks), object_keys={"det": list(dks)},
+                                       configuration={"det": {"data": {"c": 2}, "timestamps": {"c": 2.0},
+                                                              "data_keys": {"c": {"dtype": "number", "shape": [], "source": "cfg"}}}})
     events, datums = [], []
     if style.startswith("legacy"):
         spec = rng.choice(["AD_HDF5_SWMR_STREAM", "AD_TIFF", "SOMETHING_ELSE", "hdf5"])
@@ -96,7 +105,10 @@ def build_run(rng):
             data["img"] = datums[k]["datum_id"]
             ts["img"] = 2.0
             filled["img"] = False
-        events.append(desc.compose_event(data=data, timestamps=ts, filled=filled))
+        if redesc_at is not None and k >= redesc_at:
+            events.append(desc2.compose_event(data=data, timestamps=ts, filled=filled, seq_num=k + 1))
+        else:
+            events.append(desc.compose_event(data=data, timestamps=ts, filled=filled))
     body = []
     if style.startswith("legacy"):
         if packing == "pages":
@@ -107,21 +119,27 @@ def build_run(rng):
             for k in range(n):
                 if k and k in res_docs:
                     body.append(("resource", res_docs[k]))
+                if k == redesc_at:
+                    body.append(("descriptor", desc2.descriptor_doc))
                 pair = [("datum", datums[k]), ("event", events[k])]
                 body += pair if order == "datum-first" else pair[::-1]
     else:
         if style == "current":
             for k in range(n):
+                if k == redesc_at:
+                    body.append(("descriptor", desc2.descriptor_doc))
                 body.append(("event", events[k]))
                 body.append(("stream_datum", sres.compose_stream_datum(indices={"start": k, "stop": k + 1})))
-                body[-1][1]["descriptor"] = desc.descriptor_doc["uid"]
+                body[-1][1]["descriptor"] = (desc2 if redesc_at is not None and k >= redesc_at else desc).descriptor_doc["uid"]
                 body[-1][1]["seq_nums"] = {"start": k + 1, "stop": k + 2}
         else:
             body = [("event_page", pack_event_page(*events))] if packing == "pages" and events else [("event", e) for e in events]
+            if redesc_at is not None:
+                body.insert(redesc_at, ("descriptor", desc2.descriptor_doc))
     docs += body
     docs.append(("stop", run.compose_stop()))
     return docs, {"style": style, "order": order, "packing": packing, "reserved": reserved, "n": n,
-                  "nres": len(res_docs) if style.startswith("legacy") else 0}
+                  "nres": len(res_docs) if style.startswith("legacy") else 0, "redescribed": redesc_at is not None}
 
 
 def deep_equal(a, b):
@@ -171,7 +189,8 @@ def run_case(case):
             norm.subscribe(lambda name, doc: emitted.append((name, copy.deepcopy(doc))))
             problems = []
             counters = {"runs_normalized": 1, "inputs_snapshotted": len(docs), "emitted_validated": 0, "datums_converted": 0,
-                        "backup_failure_points": 0, "datum_after_event_runs": int(info["order"] == "datum-after" and info["style"].startswith("legacy"))}
+                        "backup_failure_points": 0, "datum_after_event_runs": int(info["order"] == "datum-after" and info["style"].startswith("legacy")),
+                        "redescribed_legacy_frame_runs": int(info["redescribed"] and info["style"] == "legacy")}
             try:
                 for name, d in docs:
                     norm(name, d)
@@ -229,7 +248,7 @@ def run_case(case):
                             problems.append((f"stream_datum-range-does-not-match-its-event:{info['style']}",
                                              f"event seq_num {sn}: indices {dict(sd['indices'])} seq_nums {dict(sd['seq_nums'])}"))
                             break
-            key = f"{info['style']}|{info['order']}|{info['packing']}|reserved={info['reserved']}|n={info['n']}"
+            key = f"{info['style']}|{info['order']}|{info['packing']}|reserved={info['reserved']}|n={info['n']}|redesc={info['redescribed']}"
             if problems:
                 seen = set()
                 for kd, detail in problems:
